@@ -51,6 +51,19 @@ dividers on one Compiler, conditional on the estimate hypothesis at BOTH
 states).  The tie T4 compares the Lean generators run in sequence from one state
 with the real builders run in the same sequence on one Compiler.
 
+OPERAND SHAPES.  The compiler hands the builders buses that mix value wires with
+the Compiler's constant wires (`cc.ZeroWire()`, `cc.OneWire()`: constants, zero
+extension, shifts, slices), repeat a wire (sign extension) or are one bus twice
+(`x op x`).  The `_spec` lemmas ask of the operand wires only that they exist
+(`Bnd`); the section "Operand shapes" states that explicitly:
+`C07_builders_any_operand_wires_*` (eq, neq, unsigned / signed comparators,
+adder on both targets, subtractor, multiplexer, multipliers, long divider,
+bitwise / bit test, Hamming), `C07_operand_shapes` (wires and values of an
+operand made of bus slices and constant wires, the constant wires created on
+demand), `C07_shaped_call`, `C07_shaped_call3` (such a call is a sound call of a
+history) and the instance `C07_eq_neq_zext_vs_constant` (`uintN(a) == c`,
+`uintN(a) != c` with `c` outside the range of `a`).
+
 NOT proved here (validated by the oracle and, for the gate lists, by T4 only):
 see the list at the end of this file.
 -/
@@ -64,6 +77,7 @@ import MpcVerif.Proofs.BuildersWallace
 import MpcVerif.Proofs.BuildersHammingG
 import MpcVerif.Proofs.BuildersGold
 import MpcVerif.Proofs.BuildersHist
+import MpcVerif.Proofs.BuildersOpnd
 
 namespace Mpc
 open Mpc.Bld
@@ -1160,6 +1174,326 @@ theorem C07_history_goldschmidt_pair {s : St} {inp : List Bool}
 -- `goldschmidt_pair_on_one_state` of checks/C07.py)
 example : (evalHistory true [ofNat 1 1, ofNat 1 1, ofNat 1 0, ofNat 1 1]
     [goldCall 1 (0, 0, 1) (1, 0, 1), goldCall 1 (2, 0, 1) (3, 0, 1)]).map toNat = [1, 0] := by decide +kernel
+
+/-! ## Operand shapes: constant wires, repeated wires, one bus twice
+
+`ssa.Program.Circuit` never hands a builder only fresh value wires: constants
+are wired from `cc.ZeroWire()` / `cc.OneWire()`, every cast to a wider type,
+shift, slice and short constant pads with `cc.ZeroWire()`, a sign extension
+repeats the top wire, `x op x` passes one bus twice; earlier builders deliver
+the constant wires as result bits (`z[i] = cc.ZeroWire()`).  "For all operand
+values of the builders as the compiler uses them" therefore quantifies over
+operand buses made of ARBITRARY existing wires.
+
+The `_spec` lemmas behind every theorem of this file ask of the operand wires
+only `Bnd s x` (each wire id is below `s.next`: an input, the output of any
+earlier gate, a constant wire; no distinctness, no freshness) and speak about
+`busVal s inp x` (the values those wires carry).  The family
+`C07_builders_any_operand_wires_*` states this explicitly, builder by builder;
+`C07_operand_shapes` gives the wires and values of an operand made of bus slices
+and constant wires (`mkOperand`, which requests the lazily created constant
+wires exactly as the harness does with the real Compiler); `C07_shaped_call` /
+`C07_shaped_call3` make a builder call on such operands a sound call of a
+history, so `C07_history` / `C07_history_harness` cover histories whose operands
+hold constant and repeated wires; `C07_eq_neq_zext_vs_constant` is the instance
+`uintN(a) == c`, `uintN(a) != c` with a constant outside the range of `a`.
+
+Tie: harness/cmd/c07 class `shape` (and the random histories) run the real
+builders on such operand buses on both targets; the gate lists are compared
+literally with the generators run on the same operand wires (T4, op `hgr`) and
+every call is judged against math/big on the values its operands carry. -/
+
+/-- An operand made of pieces (slices of known buses, `n` copies of the zero
+wire, `n` copies of the one wire; the same wire may occur several times): from
+any well-formed state its wires exist afterwards and carry `opndVal` of the
+values of the known buses. -/
+theorem C07_operand_shapes {inp : List Bool} {acc : List (List Nat)} (ps : List Piece) {s : St}
+    (hwf : WF s inp) (hb : BndAll s acc) :
+    Spec inp s (mkOperand acc ps) (fun w s' => Bnd s' w ∧ busVal s' inp w = opndVal (busVals s inp acc) ps) :=
+  mkOperand_spec ps hwf hb
+
+-- non-vacuity: from a state WITHOUT constant wires (they are created while the operand is made): the value `a`,
+-- its top wire repeated, a zero and a one
+example : (mkOperand [[0, 1]] [Piece.bus 0 0 2, Piece.bus 0 1 1, Piece.zeros 1, Piece.ones 1] (initSt 2 false)).1
+    = [0, 1, 1, 3, 4] := by decide
+example : let r := mkOperand [[0, 1]] [Piece.bus 0 0 2, Piece.bus 0 1 1, Piece.zeros 1, Piece.ones 1] (initSt 2 false)
+    busVal r.2 [false, true] r.1 = [false, true, true, false, true] := by decide
+
+/-- `NewEqComparator` on ANY operand wires of a well-formed state. -/
+theorem C07_builders_any_operand_wires_eq {s : St} {inp : List Bool} (hwf : WF s inp) {x y : List Nat}
+    (hx : Bnd s x) (hy : Bnd s y) (hne : 0 < max x.length y.length) :
+    Spec inp s (eqComparator x y) (fun z s' => Bnd s' z ∧
+      busVal s' inp z = [decide (toNat (busVal s inp x) = toNat (busVal s inp y))]) :=
+  eqComparator_spec hwf hx hy hne
+
+-- non-vacuity (state `exSt`: inputs 0, 1; wire 3 = zero wire, wire 4 = one wire): x = in0 twice, zero, one;
+-- y = in1, one, zero, zero
+example : busVal (initSt 2 true) [true, false] [0, 0, 3, 4] = [true, true, false, true] ∧
+    busVal (initSt 2 true) [true, false] [1, 4, 3, 3] = [false, true, false, false] := by decide
+example : Spec [true, false] (initSt 2 true) (eqComparator [0, 0, 3, 4] [1, 4, 3, 3]) (fun z s' =>
+    busVal s' [true, false] z = [false]) :=
+  (C07_builders_any_operand_wires_eq exSt_wf (exSt_bnd _ (by decide)) (exSt_bnd _ (by decide)) (by decide)).mono
+    (fun z s' _ h => by rw [h.2]; decide)
+
+/-- `NewNeqComparator` on any operand wires. -/
+theorem C07_builders_any_operand_wires_neq {s : St} {inp : List Bool} (hwf : WF s inp) {x y : List Nat}
+    (hx : Bnd s x) (hy : Bnd s y) (hne : 0 < max x.length y.length) :
+    Spec inp s (neqComparator x y) (fun z s' => Bnd s' z ∧
+      busVal s' inp z = [decide (toNat (busVal s inp x) ≠ toNat (busVal s inp y))]) :=
+  neqComparator_spec hwf hx hy hne
+
+example : Spec [true, false] (initSt 2 true) (neqComparator [0, 0, 3, 4] [1, 4, 3, 3]) (fun z s' =>
+    busVal s' [true, false] z = [true]) :=
+  (C07_builders_any_operand_wires_neq exSt_wf (exSt_bnd _ (by decide)) (exSt_bnd _ (by decide)) (by decide)).mono
+    (fun z s' _ h => by rw [h.2]; decide)
+
+/-- `NewUint{Gt,Ge,Lt,Le}Comparator` on any operand wires. -/
+theorem C07_builders_any_operand_wires_ucmp {s : St} {inp : List Bool} (hwf : WF s inp) (k : CmpKind)
+    {x y : List Nat} (hx : Bnd s x) (hy : Bnd s y) :
+    Spec inp s (comparator false k x y) (fun z s' => Bnd s' z ∧
+      busVal s' inp z = [k.relNat (toNat (busVal s inp x)) (toNat (busVal s inp y))]) :=
+  ucomparator_spec hwf k hx hy
+
+example : Spec [true, false] (initSt 2 true) (comparator false .gt [0, 0, 3, 4] [1, 4, 3, 3]) (fun z s' =>
+    busVal s' [true, false] z = [true]) :=  -- 11 > 2
+  (C07_builders_any_operand_wires_ucmp exSt_wf .gt (exSt_bnd _ (by decide)) (exSt_bnd _ (by decide))).mono
+    (fun z s' _ h => by rw [h.2]; decide)
+
+/-- `NewInt{Gt,Ge,Lt,Le}Comparator` on any operand wires (AS IN THE CODE: the
+operands are zero padded to the common width, see `C07_intCmp_partial`). -/
+theorem C07_builders_any_operand_wires_icmp {s : St} {inp : List Bool} (hwf : WF s inp) (k : CmpKind)
+    {x y : List Nat} (hx : Bnd s x) (hy : Bnd s y) (hne : 0 < max x.length y.length) :
+    Spec inp s (comparator true k x y) (fun z s' => Bnd s' z ∧
+      busVal s' inp z = [k.relInt (toInt (padTo (busVal s inp x) (max x.length y.length)))
+        (toInt (padTo (busVal s inp y) (max x.length y.length)))]) :=
+  icomparator_spec hwf k hx hy hne
+
+example : Spec [true, false] (initSt 2 true) (comparator true .lt [0, 0, 3, 4] [1, 4, 3, 3]) (fun z s' =>
+    busVal s' [true, false] z = [true]) :=  -- -5 < 2
+  (C07_builders_any_operand_wires_icmp exSt_wf .lt (exSt_bnd _ (by decide)) (exSt_bnd _ (by decide)) (by decide)).mono
+    (fun z s' _ h => by rw [h.2]; decide)
+
+/-- `NewAdder` (both targets: ripple carry, Kogge-Stone) on any operand wires. -/
+theorem C07_builders_any_operand_wires_adder {s : St} {inp : List Bool} (hwf : WF s inp) (gmw : Bool)
+    {x y : List Nat} (nz : Nat) (hx : Bnd s x) (hy : Bnd s y) (hne : 0 < max x.length y.length) (hnz : 0 < nz) :
+    Spec inp s (newAdder gmw x y nz) (fun z s' => Bnd s' z ∧ z.length = nz ∧
+      toNat (busVal s' inp z) = (toNat (busVal s inp x) + toNat (busVal s inp y)) % 2 ^ nz) := by
+  cases gmw with
+  | false => exact rippleAdder_spec hwf nz hx hy hne hnz
+  | true =>
+    simp only [newAdder, if_true, ksAdder]
+    exact ksAdderWith_spec hwf nz _ hx hy hne hnz (le_two_pow_ceilLog2 _)
+
+example (gmw : Bool) : Spec [true, false] (initSt 2 true) (newAdder gmw [0, 0, 3, 4] [1, 4, 3, 3] 5) (fun z s' =>
+    toNat (busVal s' [true, false] z) = 13) :=  -- 11 + 2
+  (C07_builders_any_operand_wires_adder exSt_wf gmw 5 (exSt_bnd _ (by decide)) (exSt_bnd _ (by decide)) (by decide)
+    (by decide)).mono (fun z s' _ h => by rw [h.2.2]; decide)
+
+/-- `NewSubtractor` (Yao target) on any operand wires: `z + y ≡ x (mod 2^nz)`. -/
+theorem C07_builders_any_operand_wires_sub {s : St} {inp : List Bool} (hwf : WF s inp)
+    {x y : List Nat} (nz : Nat) (hx : Bnd s x) (hy : Bnd s y) (hnz : 0 < nz) :
+    Spec inp s (rippleSubtractor x y nz) (fun z s' => Bnd s' z ∧ z.length = nz ∧
+      (toNat (busVal s' inp z) + toNat (busVal s inp y)) % 2 ^ nz = toNat (busVal s inp x) % 2 ^ nz) :=
+  rippleSubtractor_spec hwf nz hx hy hnz
+
+example : Spec [true, false] (initSt 2 true) (rippleSubtractor [0, 0, 3, 4] [0, 0, 3, 4] 4) (fun z s' =>
+    (toNat (busVal s' [true, false] z) + 11) % 16 = 11) :=  -- x - x
+  (C07_builders_any_operand_wires_sub exSt_wf 4 (exSt_bnd _ (by decide)) (exSt_bnd _ (by decide)) (by decide)).mono
+    (fun z s' _ h => by
+      have hv : toNat (busVal (initSt 2 true) [true, false] [0, 0, 3, 4]) = 11 := by decide
+      have := h.2.2
+      rw [hv] at this
+      exact this)
+
+/-- `NewMUX` on any operand wires, condition included (a constant wire, the
+result of a comparison, ...). -/
+theorem C07_builders_any_operand_wires_mux {s : St} {inp : List Bool} (hwf : WF s inp) {t f : List Nat} {cond : Nat}
+    (ht : Bnd s t) (hf : Bnd s f) (hc : cond < s.next) :
+    Spec inp s (newMUX cond t f (max t.length f.length)) (fun z s' => ∃ r, z = some r ∧ Bnd s' r ∧
+      busVal s' inp r = if s.val inp cond then padTo (busVal s inp t) (max t.length f.length)
+        else padTo (busVal s inp f) (max t.length f.length)) :=
+  newMUX_spec hwf ht hf hc
+
+-- the condition is the one wire, the false value is the true value's own bus
+example : Spec [true, false] (initSt 2 true) (newMUX 4 [0, 0, 3, 4] [0, 0, 3, 4] 4) (fun z s' =>
+    ∃ r, z = some r ∧ busVal s' [true, false] r = [true, true, false, true]) :=
+  (C07_builders_any_operand_wires_mux (t := [0, 0, 3, 4]) (f := [0, 0, 3, 4]) exSt_wf (exSt_bnd _ (by decide))
+    (exSt_bnd _ (by decide)) (by decide)).mono
+    (fun z s' _ ⟨r, hz, _, hv⟩ => ⟨r, hz, by rw [hv]; decide⟩)
+
+/-- `NewArrayMultiplier` and `NewWallaceMultiplier` on any operand wires. -/
+theorem C07_builders_any_operand_wires_mul {s : St} {inp : List Bool} (hwf : WF s inp)
+    {x y : List Nat} (nz : Nat) (hx : Bnd s x) (hy : Bnd s y) (hne : 0 < max x.length y.length) (hnz : 0 < nz) :
+    Spec inp s (arrayMultiplier x y nz) (fun z s' => Bnd s' z ∧ z.length = nz ∧
+      toNat (busVal s' inp z) = (toNat (busVal s inp x) * toNat (busVal s inp y)) % 2 ^ nz) ∧
+    Spec inp s (wallace x y nz) (fun z s' => Bnd s' z ∧ z.length = nz ∧
+      toNat (busVal s' inp z) = (toNat (busVal s inp x) * toNat (busVal s inp y)) % 2 ^ nz) :=
+  ⟨arrayMultiplier_spec hwf nz hx hy hne hnz, wallace_spec hwf nz hx hy hnz⟩
+
+example : Spec [true, false] (initSt 2 true) (arrayMultiplier [0, 0, 3, 4] [1, 4, 3, 3] 8) (fun z s' =>
+    toNat (busVal s' [true, false] z) = 22) :=
+  ((C07_builders_any_operand_wires_mul exSt_wf 8 (exSt_bnd _ (by decide)) (exSt_bnd _ (by decide)) (by decide)
+    (by decide)).1).mono (fun z s' _ h => by rw [h.2.2]; decide)
+
+/-- `NewUDividerLong` on any operand wires (non-zero divisor VALUE; the divisor
+may be all constant wires). -/
+theorem C07_builders_any_operand_wires_udiv {s : St} {inp : List Bool} (hwf : WF s inp) (gmw : Bool)
+    {a b : List Nat} (nq nr : Nat) (ha : Bnd s a) (hb : Bnd s b) (hne : 0 < max a.length b.length)
+    (hB : 0 < toNat (busVal s inp b)) :
+    Spec inp s (uDividerLong gmw a b nq nr) (fun t s' => Bnd s' t.1 ∧ Bnd s' t.2 ∧
+      t.1.length = nq ∧ t.2.length = nr ∧
+      toNat (busVal s' inp t.1) = (toNat (busVal s inp a) / toNat (busVal s inp b)) % 2 ^ nq ∧
+      toNat (busVal s' inp t.2) = (toNat (busVal s inp a) % toNat (busVal s inp b)) % 2 ^ nr) :=
+  uDividerLong_spec hwf gmw nq nr ha hb hne hB
+
+example : Spec [true, false] (initSt 2 true) (uDividerLong false [0, 0, 3, 4] [1, 4, 3, 3] 4 4) (fun t s' =>
+    toNat (busVal s' [true, false] t.1) = 5 ∧ toNat (busVal s' [true, false] t.2) = 1) :=  -- 11 / 2
+  (C07_builders_any_operand_wires_udiv exSt_wf false 4 4 (exSt_bnd _ (by decide)) (exSt_bnd _ (by decide)) (by decide)
+    (by decide)).mono (fun t s' _ h => by rw [h.2.2.2.2.1, h.2.2.2.2.2]; decide)
+
+/-- Bitwise builders (`NewBinaryAND/OR/XOR/Clear`: `binaryOp` over a per-bit
+gate function) and the bit tests on any operand wires. -/
+theorem C07_builders_any_operand_wires_bits {s : St} {inp : List Bool} (hwf : WF s inp)
+    {x y : List Nat} (nz index : Nat) (hx : Bnd s x) (hy : Bnd s y) :
+    Spec inp s (binaryAnd x y nz) (fun z s' => Bnd s' z ∧
+      busVal s' inp z = List.zipWith (· && ·) ((padTo (busVal s inp x) (max x.length y.length)).take nz)
+        ((padTo (busVal s inp y) (max x.length y.length)).take nz)) ∧
+    Spec inp s (binaryXor x y nz) (fun z s' => Bnd s' z ∧
+      busVal s' inp z = List.zipWith (· != ·) ((padTo (busVal s inp x) (max x.length y.length)).take nz)
+        ((padTo (busVal s inp y) (max x.length y.length)).take nz)) ∧
+    Spec inp s (bitSetTest x index) (fun z s' => Bnd s' z ∧ busVal s' inp z = [(busVal s inp x).getD index false]) :=
+  ⟨binaryOp_spec hwf (gate .and) (· && ·) (fun s a b h1 h2 h3 => gateF_spec .and s a b h1 h2 h3) nz hx hy,
+   binaryOp_spec hwf (gate .xor) (· != ·) (fun s a b h1 h2 h3 => gateF_spec .xor s a b h1 h2 h3) nz hx hy,
+   bitSetTest_spec hwf index hx⟩
+
+example : Spec [true, false] (initSt 2 true) (binaryXor [0, 0, 3, 4] [0, 0, 3, 4] 4) (fun z s' =>
+    busVal s' [true, false] z = [false, false, false, false]) :=  -- x ^ x
+  ((C07_builders_any_operand_wires_bits exSt_wf 4 0 (exSt_bnd _ (by decide)) (exSt_bnd _ (by decide))).2.1).mono
+    (fun z s' _ h => by rw [h.2]; decide)
+
+/-- `Hamming` (both targets) on any operand wires. -/
+theorem C07_builders_any_operand_wires_hamming {s : St} {inp : List Bool} (hwf : WF s inp) (gmw : Bool)
+    {x y : List Nat} (nz : Nat) (hx : Bnd s x) (hy : Bnd s y) (hne : 1 ≤ max x.length y.length) (hnz : 0 < nz) :
+    Spec inp s (hamming gmw x y nz) (fun z s' => Bnd s' z ∧ z.length = nz ∧
+      toNat (busVal s' inp z) = popDiff ((padTo (busVal s inp x) (max x.length y.length)).zip
+        (padTo (busVal s inp y) (max x.length y.length))) % 2 ^ nz) :=
+  hammingG_spec hwf gmw nz hx hy hne hnz
+
+example (gmw : Bool) : Spec [true, false] (initSt 2 true) (hamming gmw [0, 0, 3, 4] [1, 4, 3, 3] 3) (fun z s' =>
+    toNat (busVal s' [true, false] z) = 2) :=
+  (C07_builders_any_operand_wires_hamming exSt_wf gmw 3 (exSt_bnd _ (by decide)) (exSt_bnd _ (by decide)) (by decide)
+    (by decide)).mono (fun z s' _ h => by rw [h.2.2]; decide)
+
+/-- A builder call on SHAPED operands as a call of a history: any builder
+specification of the form used throughout (`Spec` from every well-formed state,
+operands any existing wires) makes it sound, so `C07_history` and
+`C07_history_harness` apply to histories whose operand buses hold constant
+wires, repeated wires, the same bus twice and results of earlier calls. -/
+theorem C07_shaped_call {inp : List Bool} {b : List Nat → List Nat → BM (List Nat)} (px py : List Piece)
+    {pre : List Bool → List Bool → Prop} {post : List Bool → List Bool → List Bool → Prop}
+    (hb : ∀ (s : St) (xw yw : List Nat), WF s inp → Bnd s xw → Bnd s yw → pre (busVal s inp xw) (busVal s inp yw) →
+      Spec inp s (b xw yw) (fun z s' => Bnd s' z ∧ post (busVal s inp xw) (busVal s inp yw) (busVal s' inp z))) :
+    (SCall.shaped2 b px py pre post).Sound inp :=
+  SCall.shaped2_sound px py hb
+
+/-- The same with three operands (multiplexer). -/
+theorem C07_shaped_call3 {inp : List Bool} {b : List Nat → List Nat → List Nat → BM (List Nat)}
+    (px py pw : List Piece)
+    {pre : List Bool → List Bool → List Bool → Prop}
+    {post : List Bool → List Bool → List Bool → List Bool → Prop}
+    (hb : ∀ (s : St) (xw yw ww : List Nat), WF s inp → Bnd s xw → Bnd s yw → Bnd s ww →
+      pre (busVal s inp xw) (busVal s inp yw) (busVal s inp ww) →
+      Spec inp s (b xw yw ww) (fun z s' => Bnd s' z ∧
+        post (busVal s inp xw) (busVal s inp yw) (busVal s inp ww) (busVal s' inp z))) :
+    (SCall.shaped3 b px py pw pre post).Sound inp :=
+  SCall.shaped3_sound px py pw hb
+
+-- non-vacuity of both: the comparator calls of Proofs/BuildersOpnd.lean are instances
+example (inp : List Bool) (px py : List Piece) : (neqShaped px py).Sound inp :=
+  C07_shaped_call px py (fun s xw yw hwf hx hy hne => neqComparator_spec hwf hx hy (by simpa using hne))
+example (inp : List Bool) (px py pw : List Piece) :
+    (SCall.shaped3 (fun t f c => do let r ← newMUX (c.getD 0 0) t f (max t.length f.length); pure (r.getD []))
+      px py pw (fun _ _ cv => cv.length = 1)
+      (fun tv fv cv z => z = if cv.getD 0 false then padTo tv (max tv.length fv.length)
+        else padTo fv (max tv.length fv.length))).Sound inp := by
+  refine C07_shaped_call3 px py pw ?_
+  intro s tw fw cw hwf ht hf hc hcl
+  have hlc : cw.length = 1 := by simpa using hcl
+  have hcb : cw.getD 0 0 < s.next := getD_bnd hc 0 (by omega)
+  refine (newMUX_spec hwf ht hf hcb).map ?_
+  intro z s' _ ⟨r, hz, hb, hv⟩
+  subst hz
+  refine ⟨hb, ?_⟩
+  rw [Option.getD_some, hv, val_getD cw 0 (by omega)]
+  simp
+
+/-- `uintN(a) == c` and `uintN(a) != c` for a constant `c` OUTSIDE the range of
+`a` (a 1 inside the known-zero region of the zero-extended operand): on the
+circuit the harness builds — the value `a` zero-extended to `n` wires with the
+zero wire, the constant wired from the constant wires, one `NewEqComparator` /
+`NewNeqComparator` call — the comparison answers false / true for EVERY value
+of `a`, every width, with and without the constant-wire prologue. -/
+theorem C07_eq_neq_zext_vs_constant (pro : Bool) (a : List Bool) (n c : Nat) (ha : 0 < a.length)
+    (hc : 2 ^ a.length ≤ c % 2 ^ n) :
+    evalHistory pro [a] [(eqShaped (zextPieces 0 a.length n) (constPieces n c)).call] = [[false]] ∧
+    evalHistory pro [a] [(neqShaped (zextPieces 0 a.length n) (constPieces n c)).call] = [[true]] := by
+  have hpos : 0 < [a].flatten.length := by simpa using ha
+  have hxv : toNat (opndVal [a] (zextPieces 0 a.length n)) = toNat a := by
+    rw [toNat_opndVal_zext]; simp
+  have hyv : toNat (opndVal [a] (constPieces n c)) = c % 2 ^ n := by
+    rw [opndVal_constPieces, toNat_ofNat]
+  have hlt := toNat_lt a
+  have hxl : 0 < (opndVal [a] (zextPieces 0 a.length n)).length := by
+    simp [zextPieces, opndVal, pieceVal]; omega
+  constructor
+  · have h := C07_history_harness (ins := [a]) [eqShaped (zextPieces 0 a.length n) (constPieces n c)]
+      (by intro c' hc'; simp at hc'; subst hc'; exact eqShaped_sound _ _ _)
+      (by simp only [PreOk, eqShaped, SCall.shaped2]; exact ⟨by omega, fun _ _ => trivial⟩) pro hpos
+    obtain ⟨z, hz, heq⟩ := h
+    simp only [eqShaped, SCall.shaped2] at hz
+    rw [hxv, hyv] at hz
+    have hz' : z = [false] := by rw [hz]; simp; omega
+    have : [a] ++ evalHistory pro [a] [(eqShaped (zextPieces 0 a.length n) (constPieces n c)).call] = [a] ++ [z] := by
+      simpa [Trace] using heq
+    rw [← hz']; exact List.append_cancel_left this
+  · have h := C07_history_harness (ins := [a]) [neqShaped (zextPieces 0 a.length n) (constPieces n c)]
+      (by intro c' hc'; simp at hc'; subst hc'; exact neqShaped_sound _ _ _)
+      (by simp only [PreOk, neqShaped, SCall.shaped2]; exact ⟨by omega, fun _ _ => trivial⟩) pro hpos
+    obtain ⟨z, hz, heq⟩ := h
+    simp only [neqShaped, SCall.shaped2] at hz
+    rw [hxv, hyv] at hz
+    have hz' : z = [true] := by rw [hz]; simp; omega
+    have : [a] ++ evalHistory pro [a] [(neqShaped (zextPieces 0 a.length n) (constPieces n c)).call] = [a] ++ [z] := by
+      simpa [Trace] using heq
+    rw [← hz']; exact List.append_cancel_left this
+
+-- non-vacuity, executed on the generators: uint4(a) == 4 / != 4 with a 2-bit `a` = 3, no prologue (the constant wires
+-- are created while the operands are made)
+example : evalHistory false [[true, true]] [(eqShaped (zextPieces 0 2 4) (constPieces 4 4)).call] = [[false]] ∧
+    evalHistory false [[true, true]] [(neqShaped (zextPieces 0 2 4) (constPieces 4 4)).call] = [[true]] := by
+  decide +kernel
+-- and the hypotheses of the theorem at this instance
+example : 0 < [true, true].length ∧ 2 ^ [true, true].length ≤ 4 % 2 ^ 4 := by decide
+
+-- a HISTORY with shaped operands fed by an earlier result: s = a + b (3 bits), then uint4(s) != 8; the fold theorem
+-- applies (every call sound by `C07_shaped_call`, preconditions hold) and the generators give 5 and true
+example (pro : Bool) : Trace [adderShaped 3 [Piece.bus 0 0 2] [Piece.bus 1 0 2],
+      neqShaped [Piece.bus 2 0 3, Piece.zeros 1] (constPieces 4 8)] [ofNat 2 3, ofNat 2 2]
+    ([ofNat 2 3, ofNat 2 2] ++ evalHistory pro [ofNat 2 3, ofNat 2 2]
+      [(adderShaped 3 [Piece.bus 0 0 2] [Piece.bus 1 0 2]).call,
+       (neqShaped [Piece.bus 2 0 3, Piece.zeros 1] (constPieces 4 8)).call]) :=
+  C07_history_harness (ins := [ofNat 2 3, ofNat 2 2])
+    [adderShaped 3 [Piece.bus 0 0 2] [Piece.bus 1 0 2], neqShaped [Piece.bus 2 0 3, Piece.zeros 1] (constPieces 4 8)]
+    (by intro c hc; simp at hc; rcases hc with rfl | rfl
+        · exact adderShaped_sound _ _ _ _
+        · exact neqShaped_sound _ _ _)
+    (by simp only [PreOk, adderShaped, neqShaped, SCall.shaped2]
+        refine ⟨by decide, fun z _ => ⟨?_, fun _ _ => trivial⟩⟩
+        simp [opndVal, pieceVal, constPieces]; omega)
+    pro (by decide)
+example : evalHistory false [ofNat 2 3, ofNat 2 2]
+    [(adderShaped 3 [Piece.bus 0 0 2] [Piece.bus 1 0 2]).call,
+     (neqShaped [Piece.bus 2 0 3, Piece.zeros 1] (constPieces 4 8)).call] = [ofNat 3 5, [true]] := by decide +kernel
 
 /-! ## What is NOT proved in this file
 
